@@ -10,7 +10,8 @@ JOB = {"rules":    [{"id":…, "yaml": text, "macros": [text,…]?}],
        "procs":    int}
 
 Only the public API is used: MasterOfPuppets(MatchConfig(...)).perform_matching(),
-MasterOfPuppets.regex_rule, JASMConfig().get_info.
+MasterOfPuppets.regex_rule, JASMConfig().get_info -- except for jobs with "stages": true, where stagetrace.py
+wraps the stage boundaries from outside to record the pipeline's steps (drift reports only).
 """
 import json
 import logging
@@ -126,8 +127,16 @@ def run_rule(job, ri, lis, listing_paths, tmp):
     out = []
     for li in lis:
         inp, binary = listing_paths[li]
-        o = run_pair(J, rule_path, macro_paths, inp, binary, job.get("fresh", False),
-                     job.get("want_regex", False), job.get("stream_only", False))
+        if job.get("stages"):
+            # one first-match / boolean operation with its stage events (harness/stagetrace.py)
+            import stagetrace
+            try:
+                o = {"outcome": "ok", "events": stagetrace.run(J, _mk_config(J, rule_path, macro_paths, inp, binary, ("B", "F", "T")))}
+            except stagetrace.TracerUnavailable as exc:
+                o = {"outcome": "unavailable", "why": str(exc)}
+        else:
+            o = run_pair(J, rule_path, macro_paths, inp, binary, job.get("fresh", False),
+                         job.get("want_regex", False), job.get("stream_only", False))
         o["r"], o["l"] = ri, li
         out.append(o)
     for p in ([] if "rule_path" in rule else [rule_path]) + macro_paths[own:]:
